@@ -130,6 +130,36 @@ def nesting(r):
     return [(k, p) for k, p in out if len(p.encode("utf-8")) <= 8192]
 
 
+def exec_nesting():
+    """well-formed pointer-free programs with long / deep (but accepted) constructs; they are EXECUTED"""
+    out = []
+
+    def prog(body):
+        return "int f(int v) { return v; }\nint main() {\n    int a = 1;\n    int[4] z = [0, 0, 0, 0];\n%s    return 0;\n}\n" % body
+    for n in (100, 300, 800, 1300, 1900):
+        for op in ("+", "*", "&&", "||", "-", "|", "<"):
+            out.append(("long-binary-exec%s-%d" % (op, n), prog("    int x = 1" + (" %s 1" % op) * n + ";\n    println(x);\n")))
+        out.append(("long-strcat-exec-%d" % n, prog("    string s = \"a\"" + " + \"a\"" * n + ";\n    println(1);\n")))
+        out.append(("long-assign-exec-%d" % n, prog("    a" + " = a" * n + ";\n    println(a);\n")))
+        out.append(("long-stmts-exec-%d" % n, prog("    a = a + 1;\n" * n + "    println(a);\n")))
+        out.append(("long-args-exec-%d" % n, prog("    println(" + ", ".join(["a"] * n) + ");\n")))
+        out.append(("long-arraylit-exec-%d" % n, prog("    int[%d] w = [" % n + ", ".join(["1"] * n) + "];\n    println(w[%d]);\n" % (n - 1))))
+        out.append(("long-member-exec-%d" % n, "struct S { int v; };\nint main() {\n    S s;\n    s.v = 1;\n    int x = s.v" + " + s.v" * n + ";\n    println(x);\n    return 0;\n}\n"))
+    for n in (50, 100, 200, 300, 450):
+        out.append(("deep-paren-exec-%d" % n, prog("    int x = " + "(" * n + "a" + ")" * n + ";\n    println(x);\n")))
+        out.append(("deep-unary-exec-%d" % n, prog("    int x = " + "-" * n + "a;\n    println(x);\n")))
+        out.append(("deep-not-exec-%d" % n, prog("    int x = " + "!" * n + "a;\n    println(x);\n")))
+        out.append(("deep-call-exec-%d" % n, prog("    int x = " + "f(" * n + "a" + ")" * n + ";\n    println(x);\n")))
+        out.append(("deep-index-exec-%d" % n, prog("    int x = " + "z[" * n + "0" + "]" * n + ";\n    println(x);\n")))
+        out.append(("deep-ternary-exec-%d" % n, prog("    int x = " + "a ? " * n + "1" + " : 2" * n + ";\n    println(x);\n")))
+        out.append(("deep-block-exec-%d" % n, prog("    " + "{ " * n + "a = a + 1; " + "} " * n + "\n    println(a);\n")))
+        out.append(("deep-if-exec-%d" % n, prog("    " + "if (a) { " * n + "a = a + 1; " + "} " * n + "\n    println(a);\n")))
+        out.append(("deep-else-exec-%d" % n, prog("    " + "if (a == 0) { } else " * n + "{ a = 5; }\n    println(a);\n")))
+        out.append(("deep-while-exec-%d" % n, prog("    " + "while (a < 3) { " * n + "a = a + 1; " + "} " * n + "\n    println(a);\n")))
+        out.append(("deep-recursion-exec-%d" % n, "int r(int k) { if (k == 0) { return 0; } return 1 + r(k - 1); }\nint main() { println(r(%d)); return 0; }\n" % (n * 10)))
+    return [(k, p) for k, p in out if len(p.encode("utf-8")) <= 8192]
+
+
 def preproc_case(r):
     """a random sequence of preprocessor directives and code lines; conditionals are NOT kept balanced on purpose (unclosed
     #ifdef at end of input, #else / #endif without an opener, duplicate #else, directives with missing operands ...)"""
@@ -280,13 +310,19 @@ def main(a):
     for k, (p, o) in enumerate(zip(progs, outs2)):
         nontrivial.add(("exec", k))
         judge("exec-core", "gen%d" % k, p, o, parse_only=False)
+    en = exec_nesting()
+    outs3 = common.run_programs(exe, [p for _, p in en], timeout=30, env=e2)
+    dist["executed-long-and-deep-programs"] = len(en)
+    for (k, p), o in zip(en, outs3):
+        nontrivial.add(("execnest", k))
+        judge(k, k, p, o, parse_only=False)
     for key, whats in sorted(census.items(), key=lambda kv: str(kv[0])):
         common.log("CENSUS %s x%d: %s" % (key, len(whats), whats[0][:420]))
     for f in findings:
         if f["id"] in cell_known:
             v.known_finding(f["what"] + " [%d inputs]" % cell_known[f["id"]])
     v.coverage.update({
-        "evaluations": len(inputs) + len(progs), "distinct_nontrivial": len(nontrivial), "distribution": dist,
+        "evaluations": len(inputs) + len(progs) + len(en), "distinct_nontrivial": len(nontrivial), "distribution": dist,
         "rejected_inputs": rejected, "parse_loop_iterations_observed": iters,
         "rule": "parse-only runs of the ASan+UBSan build: repository .cb files <= 8 KiB (quick: a sample of 220; thorough: all), "
                 "%d token-level mutants of each (delete, duplicate, swap, truncate at a token boundary, byte flips, structural "
@@ -295,9 +331,11 @@ def main(a):
                 "declarations, parameters, return types and members, casts, member chains, interpolation, macro chains, wide and "
                 "self-referential and doubling macros) up to 8 KiB, random sequences of preprocessor directives with deliberately "
                 "unbalanced conditionals, "
-                "random bytes / ASCII; full execution of generated pointer-free core programs under the sanitizers. Verdict per "
+                "random bytes / ASCII; full execution of generated pointer-free core programs and of %d well-formed programs with "
+                "long operator chains / statement lists / argument lists / array literals and deep (accepted) nesting of parens, "
+                "unary operators, calls, indexes, ternaries, blocks, if / else / while and recursion under the sanitizers. Verdict per "
                 "input: exit status 0/1, diagnostic when rejected, no sanitizer report, strictly increasing parse_iter "
-                "positions. non-trivial = distinct input" % (nm, len(nesting(r))),
+                "positions. non-trivial = distinct input" % (nm, len(nesting(r)), len(en)),
         "partial": "the theorems cover the termination argument only; crashes, invalid memory accesses and undefined operations are observed under sanitizers on the explored inputs, not proved",
         "exhaustive": False})
     v.assumptions += ["PARTIAL: absence of crashes / invalid memory accesses is observed under ASan+UBSan on the explored inputs, not proved",
